@@ -15,12 +15,25 @@ fn sample(a: u32, d: u32) -> Value {
     let ops = json!({"lt": ta < td, "le": ta <= td, "gt": ta > td, "ge": ta >= td});
     let opsu = json!({"lt": ta < d, "le": ta <= d, "gt": ta > d, "ge": ta >= d});
     let uops = json!({"lt": a < td, "le": a <= td, "gt": a > td, "ge": a >= td});
+    // a timestamp that came out of arithmetic (or of set()) is the same value as a fresh one holding that number
+    fn same(x: RtmpTimestamp) -> bool {
+        let f = RtmpTimestamp::new(x.value);
+        x == f && f == x && x.cmp(&f) == Ordering::Equal && !(x < f) && !(x > f) && x == x.value
+    }
+    let fresh = {
+        let diff = ta - td;
+        let back = (ta + td) - td;
+        let mut st = RtmpTimestamp::new(d);
+        st.set(a);
+        same(sum) && same(diff) && same(back) && back == ta && ta == back && same(st) && st == ta && same(ta + d) && same(ta - d)
+    };
     json!({"ev":"Clk","a":w(a),"d":w(d),
            "add":w((ta + td).value),"addu":w((ta + d).value),
            "sub":w((ta - td).value),"subu":w((ta - d).value),
            "inv1":w(((ta + td) - td).value),"inv2":w(((ta - d) + d).value),
            "cmp":c(ta.cmp(&td)),"rcmp":c(td.cmp(&ta)),
            "eq": ta == td, "equ": ta == d, "ueq": a == td,
+           "fresh": fresh,
            "ops":ops,"opsu":opsu,"uops":uops,
            "sumcmp":c(sum.cmp(&ta))})
 }
